@@ -313,9 +313,13 @@ func c20Redis(r *ev.Run, s *sutc.SUT, rnd *rand.Rand, round int) {
 			}
 			conn.C.Write(buf)
 			time.Sleep(30 * time.Millisecond)
+			// every node answers again before any connection is closed: the loss of a connection makes the proxy ask for the slots
+			// info at once, and a node that swallowed that request would keep it outstanding (no quiescence)
+			for _, n := range cl.Nodes {
+				n.Silent = 0
+			}
 			for _, n := range cl.Nodes {
 				n.KillConns(false)
-				n.Silent = 0
 			}
 			for i := 0; i < 20; i++ {
 				if _, err := conn.Read(10 * time.Second); err != nil {
